@@ -295,7 +295,10 @@ def loadPolicy (s : EState) : EState × Option Err :=
 def loadFilteredGen (clear : Bool) (s : EState) (f : Option Filter) : EState × Option Err :=
   let m0 := if clear then clearPG s.mem else s.mem
   match adapterLoadFiltered s m0 f with
-  | (s1, m1, some e) => ({ s1 with mem := m1 }, some e)
+  | (s1, m1, some e) =>
+    -- repaired (F26c): `load_filtered_policy` reads into a copy of the model, a failed read leaves memory as it was;
+    -- the incremental load appends to the live model, what it had appended stays
+    ({ s1 with mem := if clear then s.mem else m1 }, some e)
   | (s1, m1, none) =>
     let (ls, e) := buildLinks m1
     ({ s1 with mem := m1, links := ls }, e)
@@ -335,8 +338,8 @@ inductive FOp
   | unlink | restore | op (o : Op)
   deriving DecidableEq, Repr, Inhabited
 
-/-- with the file missing both adapter loads raise at their first statement; `load_filtered_policy` of the enforcer
-    has already cleared the policy by then; a permitted save creates the file -/
+/-- with the file missing both adapter loads raise at their first statement (nothing has been touched by then: the
+    repaired `load_filtered_policy` reads into a copy, F26c); a permitted save creates the file -/
 def stepF (s : FState) : FOp → FState × Option Err
   | .unlink => ({ s with present := false }, none)
   | .restore => ({ s with present := true }, none)
@@ -346,7 +349,7 @@ def stepF (s : FState) : FOp → FState × Option Err
       ({ s with e := e' }, r)
     else match o with
       | .load => (s, some .invalidPath)
-      | .loadFiltered _ => ({ s with e := { s.e with mem := clearPG s.e.mem } }, some .invalidPath)
+      | .loadFiltered _ => (s, some .invalidPath)
       | .loadIncrement _ => (s, some .invalidPath)
       | .save | .adapterSave =>
         let (e', r) := savePolicy s.e
